@@ -1,4 +1,5 @@
-(* 404 / 405 characterisation of the documented rule on tables without sub-applications. *)
+(* 404 / 405 characterisation of the documented rule, through sub-applications: a 404 does not depend on
+   the method, and a 405 lists exactly the methods for which the same path is served. *)
 From AV Require Import Lib.Base Generated.DispatchGen Model.Dispatch Proofs.DispatchStrings Proofs.DispatchRule.
 From Coq Require Import Arith.
 Open Scope N_scope.
@@ -20,7 +21,7 @@ Definition path_matches (r : resource) (p : str) : bool :=
   match r with
   | RPlain path _ => list_eqb path p
   | RDyn _ _ pat _ => match match_items pat p with Some _ => true | None => false end
-  | RStatic prefix _ => literal_prefix_ok (index_key r) p && static_norm_ok prefix p
+  | RStatic prefix _ => literal_prefix_ok (index_key r) p && static_norm_ok (path_safe_dec prefix) p
   | _ => false
   end.
 
@@ -50,147 +51,6 @@ Qed.
 Lemma map_fst_nonempty {A B} (l : list (A * B)) : l <> [] -> map fst l <> [].
 Proof. destruct l; simpl; congruence. Qed.
 
-Section Status.
-  Variables (host : option str) (p m : str).
-  Let fr := resolve_rule_res host p m.
-
-  (* the three possible outcomes of a leaf *)
-  Lemma leaf_outcome_cases r : leaf r ->
-    (path_matches r p = false /\ fr r = ONo []) \/
-    (path_matches r p = true /\ serves r m = true /\ exists h mi, fr r = OFinal (Found h mi)) \/
-    (path_matches r p = true /\ serves r m = false /\ fr r = ONo (methods r) /\ methods r <> []).
-  Proof.
-    unfold fr. destruct r as [path rt|o f pat rt|q rt|q rs ix|d rs ix]; intros Hl; try contradiction.
-    - cbn [resolve_rule_res leaf_outcome path_matches serves methods]. destruct (list_eqb path p); [|auto].
-      unfold by_method. destruct (route_lookup m rt); [right; left; eauto|].
-      right; right. repeat split; auto. apply map_fst_nonempty; assumption.
-    - cbn [resolve_rule_res leaf_outcome path_matches serves methods]. destruct (match_items pat p); [|auto].
-      unfold by_method. destruct (route_lookup m rt); [right; left; eauto|].
-      right; right. repeat split; auto. apply map_fst_nonempty; assumption.
-    - rewrite frule_static. cbn [path_matches serves methods].
-      destruct (literal_prefix_ok (index_key (RStatic q rt)) p); [|auto].
-      unfold static_outcome. cbn [andb]. destruct (static_norm_ok q p); [|auto].
-      destruct (assoc m rt); [right; left; eauto|].
-      right; right. repeat split; auto. apply map_fst_nonempty; assumption.
-  Qed.
-
-  Definition listed (l : list resource) : list str :=
-    flat_map (fun r => if path_matches r p then methods r else []) l.
-
-  Lemma scan_leaves l : Forall leaf l -> forall acc,
-    (* found: the first resource that matches path and method *)
-    ((exists r, In r l /\ path_matches r p = true /\ serves r m = true) ->
-       exists h mi, scan (map fr l) acc = Found h mi) /\
-    (* otherwise: the accumulated methods *)
-    ((forall r, In r l -> path_matches r p = true -> serves r m = false) ->
-       scan (map fr l) acc = finish (acc ++ listed l)).
-  Proof.
-    induction 1 as [|r l Hr Hl IH]; intros acc.
-    - split; [intros (r & [] & _)|]. intros _. simpl. rewrite app_nil_r. reflexivity.
-    - specialize (IH). destruct (leaf_outcome_cases r Hr) as [(Hm & Ho)|[(Hm & Hs & h & mi & Ho)|(Hm & Hs & Ho & Hne)]].
-      + cbn [map scan]. rewrite Ho. cbn [scan]. rewrite app_nil_r. split.
-        * intros (r' & [<-|Hin] & H1 & H2); [congruence|]. apply (proj1 (IH acc)). eauto.
-        * intros H. unfold listed. cbn [flat_map]. rewrite Hm. cbn [app].
-          apply (proj2 (IH acc)). intros; apply H; simpl; auto.
-      + cbn [map scan]. rewrite Ho. cbn [scan]. split; [eauto|].
-        intros H. specialize (H r (or_introl eq_refl) Hm). congruence.
-      + cbn [map scan]. rewrite Ho. cbn [scan]. split.
-        * intros (r' & [<-|Hin] & H1 & H2); [congruence|]. apply (proj1 (IH (acc ++ methods r))). eauto.
-        * intros H. unfold listed. cbn [flat_map]. rewrite Hm. rewrite app_assoc.
-          apply (proj2 (IH (acc ++ methods r))). intros; apply H; simpl; auto.
-  Qed.
-End Status.
-
-Lemma rule_order_In r rs : In r (rule_order is_dom keylen rs) <-> In r rs.
-Proof.
-  unfold rule_order. rewrite in_app_iff, sort_In, !filter_In. destruct (is_dom r); simpl; intuition.
-Qed.
-
-Lemma resolve_rule_scan rt host p m :
-  resolve_rule rt host p m = scan (map (resolve_rule_res host p m) (rule_order is_dom keylen (r_res rt))) [].
-Proof. unfold resolve_rule. rewrite in_rule_order_map. reflexivity. Qed.
-
-Definition flat (rt : router) : Prop := Forall leaf (r_res rt).
-
-Lemma flat_order rt : flat rt -> Forall leaf (rule_order is_dom keylen (r_res rt)).
-Proof. unfold flat. rewrite !Forall_forall. intros H r Hr. apply H. apply rule_order_In. exact Hr. Qed.
-
-Lemma listed_In p l x : In x (listed p l) <-> exists r, In r l /\ path_matches r p = true /\ In x (methods r).
-Proof.
-  unfold listed. rewrite in_flat_map. split.
-  - intros (r & Hr & Hx). destruct (path_matches r p) eqn:E; [eauto|destruct Hx].
-  - intros (r & Hr & Hm & Hx). exists r. rewrite Hm. auto.
-Qed.
-
-Lemma decide_served rt p m :
-  (exists r, In r (rule_order is_dom keylen (r_res rt)) /\ path_matches r p = true /\ serves r m = true) \/
-  (forall r, In r (rule_order is_dom keylen (r_res rt)) -> path_matches r p = true -> serves r m = false).
-Proof.
-  induction (rule_order is_dom keylen (r_res rt)) as [|r l IH]; [right; intros r []|].
-  destruct IH as [(r' & H1 & H2)|IH]; [left; exists r'; simpl; tauto|].
-  destruct (path_matches r p) eqn:E1; [destruct (serves r m) eqn:E2|].
-  - left. exists r. simpl. auto.
-  - right. intros r' [<-|Hin] H; auto.
-  - right. intros r' [<-|Hin] H; [congruence|auto].
-Qed.
-
-Lemma listed_nil p l : (forall r, In r l -> path_matches r p = false) -> listed p l = [].
-Proof.
-  induction l as [|r l IH]; intros H; [reflexivity|]. unfold listed. cbn [flat_map].
-  rewrite (H r (or_introl eq_refl)). cbn [app]. apply IH. intros; apply H; simpl; auto.
-Qed.
-
-Lemma listed_nil_inv p l : listed p l = [] -> forall r, In r l -> path_matches r p = true -> methods r = [].
-Proof.
-  intros H r Hr Hm. destruct (methods r) as [|x ms] eqn:E; [reflexivity|]. exfalso.
-  assert (Hin : In x (listed p l)) by (apply listed_In; exists r; rewrite E; simpl; auto).
-  rewrite H in Hin. destruct Hin.
-Qed.
-
-(* 404 exactly when no resource matches the path *)
-Theorem rule_404 rt host p m : flat rt ->
-  (resolve_rule rt host p m = NotFound <-> forall r, In r (r_res rt) -> path_matches r p = false).
-Proof.
-  intros Hf. rewrite resolve_rule_scan. pose proof (flat_order rt Hf) as Hl.
-  destruct (scan_leaves host p m _ Hl []) as [Hfound Hnone]. split.
-  - intros H r Hr. apply (proj2 (rule_order_In _ _)) in Hr.
-    destruct (decide_served rt p m) as [Hs|Hs].
-    + destruct (Hfound Hs) as (h & mi & E). congruence.
-    + rewrite (Hnone Hs) in H. unfold finish in H. cbn [app] in H.
-      remember (listed p (rule_order is_dom keylen (r_res rt))) as L eqn:EL.
-      destruct L; [|discriminate]. symmetry in EL.
-      destruct (path_matches r p) eqn:E; [|reflexivity]. exfalso.
-      pose proof (listed_nil_inv p _ EL r Hr E) as Hmeth.
-      rewrite Forall_forall in Hl. specialize (Hl r Hr).
-      destruct (leaf_outcome_cases host p m r Hl) as [(Hm & _)|[(_ & Hsv & _)|(_ & _ & _ & Hne)]].
-      * congruence.
-      * rewrite (Hs r Hr E) in Hsv. discriminate.
-      * congruence.
-  - intros H. rewrite Hnone.
-    + rewrite listed_nil; [reflexivity|]. intros r Hr. apply H. apply rule_order_In. exact Hr.
-    + intros r Hr Hm. apply (proj1 (rule_order_In _ _)) in Hr. rewrite (H r Hr) in Hm. discriminate.
-Qed.
-
-(* 405: some resource matches the path, none the method, and the list is exactly the union *)
-Theorem rule_405 rt host p m A : flat rt -> resolve_rule rt host p m = NotAllowed A ->
-  (exists r, In r (r_res rt) /\ path_matches r p = true) /\
-  (forall r, In r (r_res rt) -> path_matches r p = true -> serves r m = false) /\
-  (forall x, In x A <-> exists r, In r (r_res rt) /\ path_matches r p = true /\ In x (methods r)).
-Proof.
-  intros Hf. rewrite resolve_rule_scan. pose proof (flat_order rt Hf) as Hl.
-  destruct (scan_leaves host p m _ Hl []) as [Hfound Hnone]. intros H.
-  destruct (decide_served rt p m) as [Hs|Hs].
-  { destruct (Hfound Hs) as (h & mi & E). congruence. }
-  rewrite (Hnone Hs) in H. unfold finish in H. cbn [app] in H.
-  destruct (listed p (rule_order is_dom keylen (r_res rt))) as [|x0 l0] eqn:EL; [discriminate|].
-  cbn [is_nil] in H. inversion H; subst A. clear H.
-  assert (Hiff : forall x, In x (x0 :: l0) <-> exists r, In r (r_res rt) /\ path_matches r p = true /\ In x (methods r)).
-  { intros x. rewrite <- EL, listed_In. split; intros (r & Hr & Hx); exists r; (split; [apply rule_order_In; exact Hr|exact Hx]). }
-  split; [|split].
-  - destruct (proj1 (Hiff x0) (or_introl eq_refl)) as (r & Hr & Hm & _). eauto.
-  - intros r Hr Hm. apply Hs; [apply rule_order_In; exact Hr|exact Hm].
-  - exact Hiff.
-Qed.
 
 Lemma serves_listed r m : leaf r -> serves r m = true -> In m (methods r) \/ In ANY (methods r).
 Proof.
@@ -208,34 +68,317 @@ Proof.
     apply assoc_In in H; destruct H as [v Hv]; unfold route_lookup; rewrite Hv; reflexivity.
 Qed.
 
-(* no static resource lists the wildcard (add_static registers GET and HEAD only) *)
-Definition static_no_any (rt : router) : Prop :=
-  forall q rts, In (RStatic q rts) (r_res rt) -> ~ In ANY (map fst rts).
-
-(* 405 lists exactly the methods that would be served for this path *)
-Theorem rule_405_complete rt host p m A : flat rt -> static_no_any rt ->
-  resolve_rule rt host p m = NotAllowed A ->
-  forall m', (exists h mi, resolve_rule rt host p m' = Found h mi) <-> In m' A.
+(* a wildcard route serves every method (not for static resources, which list GET and HEAD only) *)
+Lemma any_serves r m : In ANY (methods r) -> (forall q rts, r = RStatic q rts -> False) -> leaf r -> serves r m = true.
 Proof.
-  intros Hf Hst H m'. destruct (rule_405 rt host p m A Hf H) as (_ & Hnone & HA).
-  pose proof (flat_order rt Hf) as Hl. unfold flat in Hf. rewrite Forall_forall in Hf.
-  rewrite resolve_rule_scan.
-  destruct (scan_leaves host p m' _ Hl []) as [Hfound Hnot]. split.
-  - intros (h & mi & E). destruct (decide_served rt p m') as [(r & Hr & Hm & Hs)|Hs].
-    + apply (proj1 (rule_order_In _ _)) in Hr. apply HA. exists r. split; [exact Hr|]. split; [exact Hm|].
-      destruct (serves_listed r m' (Hf r Hr) Hs) as [Hin|Hany]; [exact Hin|]. exfalso.
-      (* the wildcard is listed: then m itself would have been served *)
+  destruct r as [path rt|o f pat rt|q rt|q rs ix|d rs ix]; cbn [leaf serves methods]; intros H Hs Hl; try contradiction.
+  - apply assoc_In in H. destruct H as [v Hv]. unfold route_lookup. rewrite Hv. destruct (assoc m rt); reflexivity.
+  - apply assoc_In in H. destruct H as [v Hv]. unfold route_lookup. rewrite Hv. destruct (assoc m rt); reflexivity.
+  - exfalso. eapply Hs. reflexivity.
+Qed.
+
+(* well-formed tables: every leaf has a route, static resources do not list the wildcard *)
+Inductive wf_res : resource -> Prop :=
+| wf_plain path rt : rt <> [] -> wf_res (RPlain path rt)
+| wf_dyn o f pat rt : rt <> [] -> wf_res (RDyn o f pat rt)
+| wf_static q rt : rt <> [] -> ~ In ANY (map fst rt) -> wf_res (RStatic q rt)
+| wf_sub q rs ix : Forall wf_res rs -> wf_res (RSub q rs ix)
+| wf_dom d rs ix : Forall wf_res rs -> wf_res (RDom d rs ix).
+
+Definition wf_router (rt : router) : Prop := Forall wf_res (r_res rt).
+
+Lemma merge_found acc h mi : merge_allowed acc (Found h mi) = Found h mi.
+Proof. destruct acc; reflexivity. Qed.
+
+(* what a method sweep over one path must satisfy *)
+Definition sweep_ok (g : str -> result) : Prop :=
+  (forall m, g m = NotFound -> forall m', g m' = NotFound) /\
+  (forall m A, g m = NotAllowed A -> forall m', (exists h mi, g m' = Found h mi) <-> In m' A).
+
+Section Status.
+  Variables (host : option str) (p : str).
+  Definition fr (m : str) := resolve_rule_res host p m.
+
+  (* the three possible outcomes of a leaf *)
+  Lemma leaf_outcome_cases m r : leaf r ->
+    (path_matches r p = false /\ fr m r = ONo []) \/
+    (path_matches r p = true /\ serves r m = true /\ exists h mi, fr m r = OFinal (Found h mi)) \/
+    (path_matches r p = true /\ serves r m = false /\ fr m r = ONo (methods r) /\ methods r <> []).
+  Proof.
+    unfold fr. destruct r as [path rt|o f pat rt|q rt|q rs ix|d rs ix]; intros Hl; try contradiction.
+    - cbn [resolve_rule_res leaf_outcome path_matches serves methods]. destruct (list_eqb path p); [|auto].
+      unfold by_method. destruct (route_lookup m rt); [right; left; eauto|].
+      right; right. repeat split; auto. apply map_fst_nonempty; assumption.
+    - cbn [resolve_rule_res leaf_outcome path_matches serves methods]. destruct (match_items pat p); [|auto].
+      unfold by_method. destruct (route_lookup m rt); [right; left; eauto|].
+      right; right. repeat split; auto. apply map_fst_nonempty; assumption.
+    - rewrite frule_static. cbn [path_matches serves methods].
+      destruct (literal_prefix_ok (index_key (RStatic q rt)) p); [|auto].
+      unfold static_outcome. cbn [andb]. destruct (static_norm_ok (path_safe_dec q) p); [|auto].
+      destruct (assoc m rt); [right; left; eauto|].
+      right; right. repeat split; auto. apply map_fst_nonempty; assumption.
+  Qed.
+
+  (* a sub-application takes the request over when the path lies under its prefix / the Host matches *)
+  Definition captures (r : resource) : bool :=
+    match r with
+    | RSub _ _ _ => literal_prefix_ok (index_key r) p
+    | RDom d _ _ => dom_match d host
+    | _ => false
+    end.
+
+  Definition inner (r : resource) (m : str) : result :=
+    match r with
+    | RSub _ rs _ | RDom _ rs _ => scan (in_rule_order rs (map (fr m) rs)) []
+    | _ => Broken
+    end.
+
+  Lemma captures_outcome r m : captures r = true -> fr m r = OFinal (inner r m).
+  Proof.
+    destruct r as [path rt|o f pat rt|q rt|q rs ix|d rs ix]; cbn [captures]; intros H; try discriminate; unfold fr.
+    - rewrite frule_sub, H. reflexivity.
+    - rewrite frule_dom, H. reflexivity.
+  Qed.
+
+  Fixpoint pre (l : list resource) : list resource :=
+    match l with [] => [] | r :: l' => if captures r then [] else r :: pre l' end.
+  Fixpoint cap (l : list resource) : option resource :=
+    match l with [] => None | r :: l' => if captures r then Some r else cap l' end.
+
+  Lemma cap_In l c : cap l = Some c -> In c l /\ captures c = true.
+  Proof.
+    induction l as [|r l IH]; [discriminate|]. cbn [cap]. destruct (captures r) eqn:E.
+    - intros H. inversion H; subst. simpl. auto.
+    - intros H. destruct (IH H). simpl. auto.
+  Qed.
+
+  Lemma pre_In l r : In r (pre l) -> In r l /\ captures r = false.
+  Proof.
+    induction l as [|x l IH]; [intros []|]. cbn [pre]. destruct (captures x) eqn:E; [intros []|].
+    intros [<-|H]; [simpl; auto|]. destruct (IH H). simpl. auto.
+  Qed.
+
+  Definition listed (l : list resource) : list str :=
+    flat_map (fun r => if path_matches r p then methods r else []) l.
+
+  Lemma listed_In l x : In x (listed l) <-> exists r, In r l /\ path_matches r p = true /\ In x (methods r).
+  Proof.
+    unfold listed. rewrite in_flat_map. split.
+    - intros (r & Hr & Hx). destruct (path_matches r p) eqn:E; [eauto|destruct Hx].
+    - intros (r & Hr & Hm & Hx). exists r. rewrite Hm. auto.
+  Qed.
+
+  Lemma wf_leaf r : wf_res r -> path_matches r p = true -> leaf r.
+  Proof. destruct 1; cbn [path_matches leaf]; intros Hpm; try discriminate; assumption. Qed.
+
+  (* outcome of a well-formed resource that does not capture *)
+  Lemma non_capturing m r : wf_res r -> captures r = false ->
+    (path_matches r p = false /\ fr m r = ONo []) \/
+    (path_matches r p = true /\ serves r m = true /\ exists h mi, fr m r = OFinal (Found h mi)) \/
+    (path_matches r p = true /\ serves r m = false /\ fr m r = ONo (methods r) /\ methods r <> []).
+  Proof.
+    intros Hwf Hc. destruct Hwf as [path rt H|o f pat rt H|q rt H Hany|q rs ix H|d rs ix H].
+    - apply leaf_outcome_cases. exact H.
+    - apply leaf_outcome_cases. exact H.
+    - apply leaf_outcome_cases. exact H.
+    - left. split; [reflexivity|]. unfold fr. rewrite frule_sub. cbn [captures] in Hc. rewrite Hc. reflexivity.
+    - left. split; [reflexivity|]. unfold fr. rewrite frule_dom. cbn [captures] in Hc. rewrite Hc. reflexivity.
+  Qed.
+
+  Definition tail_result (l : list resource) (m : str) (acc : list str) : result :=
+    match cap l with
+    | None => finish acc
+    | Some c => merge_allowed acc (inner c m)
+    end.
+
+  Lemma scan_struct l : Forall wf_res l -> forall m acc,
+    ((exists r, In r (pre l) /\ path_matches r p = true /\ serves r m = true) ->
+       exists h mi, scan (map (fr m) l) acc = Found h mi) /\
+    ((forall r, In r (pre l) -> path_matches r p = true -> serves r m = false) ->
+       scan (map (fr m) l) acc = tail_result l m (acc ++ listed (pre l))).
+  Proof.
+    induction 1 as [|r l Hr Hl IH]; intros m acc.
+    - split; [intros (r & [] & _)|]. intros _. unfold tail_result. simpl. rewrite app_nil_r. reflexivity.
+    - cbn [pre]. unfold tail_result. cbn [cap]. destruct (captures r) eqn:Ec.
+      + split; [intros (r' & [] & _)|]. intros _. cbn [map scan]. rewrite (captures_outcome r m Ec).
+        cbn [scan listed flat_map]. rewrite app_nil_r. reflexivity.
+      + fold (tail_result l m).
+        destruct (non_capturing m r Hr Ec) as [(Hm & Ho)|[(Hm & Hs & h & mi & Ho)|(Hm & Hs & Ho & Hne)]].
+        * cbn [map scan]. rewrite Ho. cbn [scan]. rewrite app_nil_r. split.
+          -- intros (r' & [<-|Hin] & H1 & H2); [congruence|]. apply (proj1 (IH m acc)). eauto.
+          -- intros H. unfold listed. cbn [flat_map]. rewrite Hm. cbn [app].
+             apply (proj2 (IH m acc)). intros; apply H; simpl; auto.
+        * cbn [map scan]. rewrite Ho. cbn [scan]. rewrite merge_found. split; [eauto|].
+          intros H. specialize (H r (or_introl eq_refl) Hm). congruence.
+        * cbn [map scan]. rewrite Ho. cbn [scan]. split.
+          -- intros (r' & [<-|Hin] & H1 & H2); [congruence|]. apply (proj1 (IH m (acc ++ methods r))). eauto.
+          -- intros H. unfold listed. cbn [flat_map]. rewrite Hm. rewrite app_assoc.
+             apply (proj2 (IH m (acc ++ methods r))). intros; apply H; simpl; auto.
+  Qed.
+
+  Lemma decide_served l m :
+    (exists r, In r l /\ path_matches r p = true /\ serves r m = true) \/
+    (forall r, In r l -> path_matches r p = true -> serves r m = false).
+  Proof.
+    induction l as [|r l IH]; [right; intros r []|].
+    destruct IH as [(r' & H1 & H2)|IH]; [left; exists r'; simpl; tauto|].
+    destruct (path_matches r p) eqn:E1; [destruct (serves r m) eqn:E2|].
+    - left. exists r. simpl. auto.
+    - right. intros r' [<-|Hin] H; auto.
+    - right. intros r' [<-|Hin] H; [congruence|auto].
+  Qed.
+
+  (* among the resources tried before a capture: served <-> listed, provided m itself is not served *)
+  Lemma served_iff_listed l m : Forall wf_res l ->
+    (forall r, In r l -> path_matches r p = true -> serves r m = false) ->
+    forall m', (exists r, In r l /\ path_matches r p = true /\ serves r m' = true) <-> In m' (listed l).
+  Proof.
+    intros Hwf Hnone m'. rewrite Forall_forall in Hwf. rewrite listed_In. split.
+    - intros (r & Hr & Hm & Hs). exists r. split; [exact Hr|]. split; [exact Hm|].
+      pose proof (wf_leaf r (Hwf r Hr) Hm) as Hleaf.
+      destruct (serves_listed r m' Hleaf Hs) as [Hin|Hany]; [exact Hin|]. exfalso.
       specialize (Hnone r Hr Hm).
-      destruct r as [path rt'|o f pat rt'|q rt'|q rs ix|d rs ix]; cbn [serves methods] in *.
-      * apply assoc_In in Hany. destruct Hany as [v Hv]. unfold route_lookup in Hnone.
-        rewrite Hv in Hnone. destruct (assoc m rt'); discriminate.
-      * apply assoc_In in Hany. destruct Hany as [v Hv]. unfold route_lookup in Hnone.
-        rewrite Hv in Hnone. destruct (assoc m rt'); discriminate.
-      * exact (Hst q rt' Hr Hany).
-      * destruct Hany.
-      * destruct Hany.
-    + rewrite (Hnot Hs) in E. unfold finish in E. destruct (is_nil _); discriminate.
-  - intros Hin. apply HA in Hin. destruct Hin as (r & Hr & Hm & Hx). apply Hfound.
-    exists r. split; [apply rule_order_In; exact Hr|]. split; [exact Hm|].
-    apply listed_serves; [apply Hf; exact Hr|exact Hx].
+      destruct (Hwf r Hr) as [path rt H|o f pat rt H|q rt H Hna|q rs ix H|d rs ix H].
+      + rewrite (any_serves _ m Hany) in Hnone; [discriminate|intros; discriminate|exact H].
+      + rewrite (any_serves _ m Hany) in Hnone; [discriminate|intros; discriminate|exact H].
+      + exact (Hna Hany).
+      + destruct Hany.
+      + destruct Hany.
+    - intros (r & Hr & Hm & Hx). exists r. split; [exact Hr|]. split; [exact Hm|].
+      apply listed_serves; [apply (wf_leaf r (Hwf r Hr) Hm)|exact Hx].
+  Qed.
+
+  Lemma listed_nil_none l : Forall wf_res l -> listed l = [] -> forall r, In r l -> path_matches r p = false.
+  Proof.
+    intros Hwf HL r Hr. destruct (path_matches r p) eqn:E; [|reflexivity]. exfalso.
+    rewrite Forall_forall in Hwf. pose proof (wf_leaf r (Hwf r Hr) E) as Hleaf.
+    assert (Hne : methods r <> []).
+    { destruct r as [path rt|o f pat rt|q rt|q rs ix|d rs ix]; cbn [leaf methods] in *; try contradiction;
+        apply map_fst_nonempty; assumption. }
+    destruct (methods r) as [|x ms] eqn:Em; [congruence|].
+    assert (Hin : In x (listed l)) by (apply listed_In; exists r; rewrite Em; simpl; auto).
+    rewrite HL in Hin. destruct Hin.
+  Qed.
+
+  (* one level: if every capturing candidate sweeps well, the whole candidate list does *)
+  Lemma sweep_list l : Forall wf_res l ->
+    (forall c, In c l -> captures c = true -> sweep_ok (inner c)) ->
+    sweep_ok (fun m => scan (map (fr m) l) []).
+  Proof.
+    intros Hwf Hin.
+    assert (Hpre : Forall wf_res (pre l)).
+    { rewrite Forall_forall in *. intros r Hr. apply Hwf. apply (proj1 (pre_In l r Hr)). }
+    set (L := listed (pre l)).
+    assert (Hshape : forall m,
+      (exists h mi, scan (map (fr m) l) [] = Found h mi) /\ (exists r, In r (pre l) /\ path_matches r p = true /\ serves r m = true)
+      \/ (scan (map (fr m) l) [] = tail_result l m L /\ forall r, In r (pre l) -> path_matches r p = true -> serves r m = false)).
+    { intros m. destruct (scan_struct l Hwf m []) as [Hf Hn].
+      destruct (decide_served (pre l) m) as [Hs|Hs]; [left; auto|right; split; [apply Hn; exact Hs|exact Hs]]. }
+    assert (Hcap : forall c, cap l = Some c -> sweep_ok (inner c)).
+    { intros c Hc. destruct (cap_In l c Hc). apply Hin; assumption. }
+    split.
+    - (* 404 does not depend on the method *)
+      intros m H m'. destruct (Hshape m) as [[(h & mi & E) _]|[E Hnone]]; [congruence|].
+      rewrite E in H. unfold tail_result in H.
+      assert (HL : L = [] /\ match cap l with None => True | Some c => inner c m = NotFound end).
+      { destruct (cap l) as [c|].
+        - destruct L as [|x L']; [split; [reflexivity|exact H]|].
+          cbn [merge_allowed] in H. destruct (inner c m); discriminate.
+        - unfold finish in H. destruct L; [auto|discriminate]. }
+      destruct HL as [HL Hc]. pose proof (listed_nil_none (pre l) Hpre HL) as Hno.
+      destruct (Hshape m') as [[_ (r & Hr & Hm & _)]|[E' _]]; [rewrite (Hno r Hr) in Hm; discriminate|].
+      rewrite E'. unfold tail_result. fold L. rewrite HL. destruct (cap l) as [c|] eqn:Ecap; [|reflexivity].
+      cbn [merge_allowed]. apply (proj1 (Hcap c eq_refl) m Hc).
+    - (* 405 lists exactly the served methods *)
+      intros m A H m'. destruct (Hshape m) as [[(h & mi & E) _]|[E Hnone]]; [congruence|].
+      rewrite E in H. unfold tail_result in H.
+      pose proof (served_iff_listed (pre l) m Hpre Hnone m') as Hsl. fold L in Hsl.
+      assert (Hfound_pre : (exists r, In r (pre l) /\ path_matches r p = true /\ serves r m' = true) ->
+                           exists h mi, scan (map (fr m') l) [] = Found h mi).
+      { intros Hs. apply (proj1 (scan_struct l Hwf m' [])). exact Hs. }
+      destruct (cap l) as [c|] eqn:Ecap.
+      + destruct (Hcap c eq_refl) as [Hc404 Hc405].
+        destruct L as [|x0 L0] eqn:EL.
+        * (* nothing collected: the sub-application's own answer *)
+          cbn [merge_allowed] in H.
+          pose proof (listed_nil_none (pre l) Hpre EL) as Hno.
+          destruct (Hshape m') as [[_ (r & Hr & Hm & _)]|[E' _]]; [rewrite (Hno r Hr) in Hm; discriminate|].
+          rewrite E'. unfold tail_result. rewrite Ecap. cbn [merge_allowed]. apply (Hc405 m A H).
+        * cbn [merge_allowed] in H. destruct (inner c m) as [h mi| |a|] eqn:Ei; try discriminate.
+          -- (* sub-app 404, collected methods *)
+             inversion H; subst A. rewrite <- Hsl. split.
+             ++ intros Hf. destruct (Hshape m') as [[_ Hs]|[E' _]]; [exact Hs|].
+                rewrite E' in Hf. unfold tail_result in Hf. rewrite Ecap, (Hc404 m Ei m') in Hf.
+                cbn [merge_allowed] in Hf. destruct Hf as (h & mi & Hf). discriminate.
+             ++ exact Hfound_pre.
+          -- (* sub-app 405: union *)
+             inversion H; subst A.
+             transitivity (In m' (x0 :: L0) \/ In m' a); [|symmetry; apply (in_app_iff (x0 :: L0) a m')].
+             rewrite <- Hsl. split.
+             ++ intros Hf. destruct (Hshape m') as [[_ Hs]|[E' _]]; [left; exact Hs|].
+                right. rewrite E' in Hf. unfold tail_result in Hf. rewrite Ecap in Hf.
+                apply (Hc405 m a Ei m'). cbn [merge_allowed] in Hf.
+                destruct (inner c m') as [h mi| |a'|]; destruct Hf as (h' & mi' & Hf); try discriminate. eauto.
+             ++ intros [Hs|Ha]; [apply Hfound_pre; exact Hs|].
+                destruct (Hshape m') as [[Hf _]|[E' _]]; [exact Hf|].
+                rewrite E'. unfold tail_result. rewrite Ecap.
+                destruct (proj2 (Hc405 m a Ei m') Ha) as (h & mi & Hf). rewrite Hf. cbn [merge_allowed]. eauto.
+      + unfold finish in H. destruct L as [|x0 L0] eqn:EL; [discriminate|]. cbn [is_nil] in H. inversion H; subst A.
+        rewrite <- Hsl. split.
+        * intros Hf. destruct (Hshape m') as [[_ Hs]|[E' _]]; [exact Hs|].
+          rewrite E' in Hf. unfold tail_result in Hf. rewrite Ecap in Hf. unfold finish in Hf. cbn [is_nil] in Hf.
+          destruct Hf as (h & mi & Hf). discriminate.
+        * exact Hfound_pre.
+  Qed.
+End Status.
+
+Lemma rule_order_In r rs : In r (rule_order is_dom keylen rs) <-> In r rs.
+Proof.
+  unfold rule_order. rewrite in_app_iff, sort_In, !filter_In. destruct (is_dom r); simpl; intuition.
+Qed.
+
+Lemma resolve_rule_scan rt host p m :
+  resolve_rule rt host p m = scan (map (resolve_rule_res host p m) (rule_order is_dom keylen (r_res rt))) [].
+Proof. unfold resolve_rule. rewrite in_rule_order_map. reflexivity. Qed.
+
+(* every nesting level *)
+Lemma sweep_inner host p : forall r, wf_res r -> captures host p r = true -> sweep_ok (inner host p r).
+Proof.
+  induction r using resource_ind'; intros Hwf Hc; try discriminate Hc.
+  - inversion Hwf as [| | |? ? ? Hrs|]; subst.
+    assert (E : forall m, inner host p (RSub p0 rs ix) m
+                = scan (map (fr host p m) (rule_order is_dom keylen rs)) []).
+    { intros m. cbn [inner]. unfold fr. rewrite in_rule_order_map. reflexivity. }
+    assert (S : sweep_ok (fun m => scan (map (fr host p m) (rule_order is_dom keylen rs)) [])).
+    { apply sweep_list.
+      - rewrite Forall_forall in *. intros x Hx. apply Hrs. apply rule_order_In. exact Hx.
+      - intros c Hin Hcc. rewrite Forall_forall in *. apply (proj1 (rule_order_In _ _)) in Hin. apply H; auto. }
+    destruct S as [S1 S2]. split.
+    + intros m Hm m'. rewrite E in *. eauto.
+    + intros m A Hm m'. rewrite E in *. eauto.
+  - inversion Hwf as [| | | |? ? ? Hrs]; subst.
+    assert (E : forall m, inner host p (RDom d rs ix) m
+                = scan (map (fr host p m) (rule_order is_dom keylen rs)) []).
+    { intros m. cbn [inner]. unfold fr. rewrite in_rule_order_map. reflexivity. }
+    assert (S : sweep_ok (fun m => scan (map (fr host p m) (rule_order is_dom keylen rs)) [])).
+    { apply sweep_list.
+      - rewrite Forall_forall in *. intros x Hx. apply Hrs. apply rule_order_In. exact Hx.
+      - intros c Hin Hcc. rewrite Forall_forall in *. apply (proj1 (rule_order_In _ _)) in Hin. apply H; auto. }
+    destruct S as [S1 S2]. split.
+    + intros m Hm m'. rewrite E in *. eauto.
+    + intros m A Hm m'. rewrite E in *. eauto.
+Qed.
+
+(* FULL: for every well-formed table, with any nesting of sub-applications *)
+Theorem rule_sweep rt host p : wf_router rt -> sweep_ok (fun m => resolve_rule rt host p m).
+Proof.
+  intros Hwf. unfold wf_router in Hwf.
+  assert (S : sweep_ok (fun m => scan (map (fr host p m) (rule_order is_dom keylen (r_res rt))) [])).
+  { apply sweep_list.
+    - rewrite Forall_forall in *. intros x Hx. apply Hwf. apply rule_order_In. exact Hx.
+    - intros c Hin Hcc. apply sweep_inner; [|exact Hcc]. rewrite Forall_forall in Hwf. apply Hwf.
+      apply rule_order_In. exact Hin. }
+  destruct S as [S1 S2]. split.
+  - intros m Hm m'. rewrite resolve_rule_scan in *. eauto.
+  - intros m A Hm m'. rewrite resolve_rule_scan in *. unfold fr in S2. eauto.
 Qed.
